@@ -29,14 +29,14 @@ import (
 // HMAC code) and knows by construction whether it must be admitted.
 
 type tokSpec struct {
-	HdrAlg  string `json:"header_alg"`
-	MacAlg  string `json:"mac_alg"`  // which HMAC actually signs ("" = no signature)
-	Key     string `json:"key"`      // secret the token is signed with
-	Exp     int    `json:"exp_off"`  // seconds relative to now; 0 = claim absent
-	Iat     int    `json:"iat_off"`
-	Nbf     int    `json:"nbf_off"`
-	Tamper  string `json:"tamper"`
-	Reuse   int    `json:"reuse"` // >0: present the token string issued at that earlier event again
+	HdrAlg string `json:"header_alg"`
+	MacAlg string `json:"mac_alg"` // which HMAC actually signs ("" = no signature)
+	Key    string `json:"key"`     // secret the token is signed with
+	Exp    int    `json:"exp_off"` // seconds relative to now; 0 = claim absent
+	Iat    int    `json:"iat_off"`
+	Nbf    int    `json:"nbf_off"`
+	Tamper string `json:"tamper"`
+	Reuse  int    `json:"reuse"` // >0: present the token string issued at that earlier event again
 }
 
 type authEvent struct {
